@@ -8,6 +8,10 @@
 #include <unistd.h>
 
 namespace vh {
+bool &stutter_flag() {
+  static bool f = false;
+  return f;
+}
 std::map<std::string, runner_t> &registry() {
   static std::map<std::string, runner_t> r;
   return r;
@@ -32,6 +36,11 @@ int main(int argc, char **argv) {
   long per_history_s = getenv("VH_STEP_TIMEOUT") ? atol(getenv("VH_STEP_TIMEOUT")) : 20;
   for (int a = 3; a < argc; ++a) {
     std::string dom = argv[a];
+    vh::stutter_flag() = false;
+    if (dom.size() > 2 && dom.substr(dom.size() - 2) == "#s") {
+      dom = dom.substr(0, dom.size() - 2);
+      vh::stutter_flag() = true;
+    }
     auto it = vh::registry().find(dom);
     if (it == vh::registry().end()) {
       std::cerr << "unknown domain " << dom << "\n";
@@ -68,7 +77,7 @@ int main(int argc, char **argv) {
       next += done;
       if (next < hs.size()) { // the child died on history `next`
         const char *why = (WIFSIGNALED(status) && WTERMSIG(status) == SIGALRM) ? "timeout" : "crash";
-        fprintf(out, "{\"id\":%lld,\"dom\":\"%s\",\"err\":\"%s\",\"status\":%d}\n", hs[next]["id"].i(), dom.c_str(), why,
+        fprintf(out, "{\"id\":%lld,\"dom\":\"%s\",\"err\":\"%s\",\"status\":%d}\n", hs[next]["id"].i(), (dom + (vh::stutter_flag() ? "#s" : "")).c_str(), why,
                 WIFSIGNALED(status) ? 1000 + WTERMSIG(status) : WEXITSTATUS(status));
         ++next;
       }
